@@ -66,13 +66,21 @@ class Ctx:
             self.KEY_NAME != self.KEY_NS, self.KEY_NAME != self.KEY_EDIF, self.KEY_NS != self.KEY_EDIF,
             ForAll([l, y], self.cnt(l, y) >= 0, patterns=[self.cnt(l, y)]),
             ForAll([l], self.len(l) >= 0, patterns=[self.len(l)]),
-            # positional view: every position holds a member; every member has a position; in a duplicate-free list positions are unique
+            ForAll([i], And(self.cls(self.boxint(i)) == self.C['Foreign'], self.intval(self.boxint(i)) == i), patterns=[self.boxint(i)]),
+        ]
+
+    def enable_positions(self):
+        """positional view of lists (at / idx), added only for functions whose contract talks about positions: the axioms
+        feed each other's triggers, so they are kept out of every other query"""
+        if getattr(self, '_positions', False): return
+        self._positions = True
+        l, y, i = Const('l', self.Lst), Const('y', self.Ref), Const('i', IntSort())
+        self.axioms += [
             ForAll([l, i], Implies(And(0 <= i, i < self.len(l)), self.cnt(l, self.at(l, i)) >= 1), patterns=[self.at(l, i)]),
             ForAll([l, y], Implies(self.cnt(l, y) >= 1, And(0 <= self.idx(l, y), self.idx(l, y) < self.len(l), self.at(l, self.idx(l, y)) == y)),
                    patterns=[self.idx(l, y)]),
             ForAll([l, i], Implies(And(0 <= i, i < self.len(l), self.cnt(l, self.at(l, i)) == 1), self.idx(l, self.at(l, i)) == i),
                    patterns=[self.at(l, i)]),
-            ForAll([i], And(self.cls(self.boxint(i)) == self.C['Foreign'], self.intval(self.boxint(i)) == i), patterns=[self.boxint(i)]),
         ]
 
     # ------------------------------------------------------------------ helpers
